@@ -62,7 +62,8 @@ where
     //      formatting write control.
     let mantissa = float.mantissa();
     let radix = format.mantissa_radix();
-    let (mantissa, mantissa_bits) = truncate_and_round(mantissa, radix, options);
+    let (mantissa, mantissa_bits) =
+        truncate_and_round_digits(mantissa, radix, float.exponent(), options);
 
     // See if we should use an exponent if the number was represented
     // in scientific notation, AKA, `I.FFFF^EEE`. If the exponent is above
@@ -762,4 +763,46 @@ where
     }
 
     (shifted_mantissa, mantissa_bits)
+}
+
+/// Round the mantissa of `mantissa * 2^exp` to at most `max_significant_digits`
+/// digits of the radix, keeping it a mantissa of the same exponent.
+///
+/// Unlike [`truncate_and_round`], this counts digits, not bits: the leading
+/// digit only holds the bits above the last digit boundary, and the rounded
+/// mantissa is shifted back so the digit boundaries stay where `exp` puts them.
+#[inline(always)]
+pub fn truncate_and_round_digits<M>(mantissa: M, radix: u32, exp: i32, options: &Options) -> (M, usize)
+where
+    M: UnsignedInteger,
+{
+    let mantissa_bits = significant_bits(mantissa) as i32;
+    let bits_per_digit = fast_log2(radix);
+    let max_digits = match options.max_significant_digits() {
+        Some(digits) => digits.get(),
+        None => return (mantissa, mantissa_bits as usize),
+    };
+
+    // Bits of the leading digit: the top bit is bit `sci_exp mod bits_per_digit` of it.
+    let sci_exp = exp + mantissa_bits - 1;
+    let unused_bits = (bits_per_digit - 1 - sci_exp.rem_euclid(bits_per_digit)) as usize;
+    let max_bits = max_digits.saturating_mul(bits_per_digit as usize) - unused_bits;
+    if max_bits >= mantissa_bits as usize {
+        return (mantissa, mantissa_bits as usize);
+    }
+
+    // Round on the digit boundary, then restore the scale.
+    let shr = mantissa_bits - max_bits as i32;
+    let mut rounded = mantissa >> shr;
+    if options.round_mode() == RoundMode::Round {
+        let mask = (M::ONE << shr) - M::ONE;
+        let halfway = M::ONE << (shr - 1);
+        let is_above = (mantissa & mask) > halfway;
+        let is_halfway = (mantissa & mask) == halfway;
+        let is_odd = rounded & M::ONE == M::ONE;
+        rounded += as_cast((is_above || (is_odd & is_halfway)) as u32);
+    }
+    let rounded = rounded << shr;
+
+    (rounded, significant_bits(rounded) as usize)
 }
